@@ -189,7 +189,7 @@ Definition op_peer (o : op) : option N :=
   match o with
   | OAdd p _ _ _ => Some p
   | ODialFailure a _ _ => match last a (Other 0) with P2p p => Some p | _ => None end
-  | OEstablished p _ l _ => if l then None else Some p
+  | OEstablished p _ _ _ => Some p
   | ODial p _ _ _ _ => Some p
   | OInsert p _ _ _ => Some p
   | ODialAddr a _ _ => match last a (Other 0) with P2p p => Some p | _ => None end
@@ -213,7 +213,7 @@ Definition enc_out (c : cfg) (o : op) (st' : state) (r : out) : list N :=
   let d := match op_peer o with Some p => dump (get_or_empty p b') | None => [] end in
   match r with
   | RAdd n bad => [0; n; b2n bad] ++ d
-  | RIns None => [1; 0]
+  | RIns None => [1; 0] ++ d
   | RIns (Some x) => [1; 1; b2n (is_bad x)] ++ d
   | RAddrs None => [3; 9]
   | RAddrs (Some l) => [3; 0] ++ enc_list enc_entry l
@@ -270,7 +270,7 @@ Definition p_parsed : parser (option parsed) :=
 
 Inductive obs :=
 | BAdd (n : N) (s : store)
-| BIns0
+| BIns0 (s : option store)
 | BIns (s : store)
 | BAddrs (l : option store)
 | BProbe (sup : bool) (rt : N) (ptcp pws : option parsed)
@@ -287,7 +287,7 @@ Definition p_obs : parser obs :=
   match tag with
   | 0 => let* n := pN in let* _ := pN in let* s := p_store in pret (BAdd n s)
   | 1 => let* f := pN in
-         if f =? 0 then pret BIns0 else let* _ := pN in let* s := p_store in pret (BIns s)
+         if f =? 0 then pret (BIns0 None) else let* _ := pN in let* s := p_store in pret (BIns s)
   | 3 => let* f := pN in
          if f =? 0 then let* l := p_store in pret (BAddrs (Some l)) else pret (BAddrs None)
   | 4 => let* sup := pBool in let* rt := pN in let* a := p_parsed in let* b := p_parsed in
@@ -307,11 +307,13 @@ Definition p_obs : parser obs :=
   | _ => pfail
   end.
 
-(* the dump that follows a dial_address record when the address ends in /p2p *)
+(* the dump that follows a dial_address record when the address ends in /p2p, and an inbound
+   connection's record *)
 Definition p_obs_for (o : op) : parser obs :=
   let* ob := p_obs in
   match ob, op_peer o with
   | BDialAddr code _, Some _ => let* s := p_store in pret (BDialAddr code (Some s))
+  | BIns0 _, Some _ => let* s := p_store in pret (BIns0 (Some s))
   | _, _ => pret ob
   end.
 
@@ -435,12 +437,14 @@ Definition step_ok (c : cfg) (k : scorecfg) (st : ostate) (o : op) (ob : obs) : 
           if rescore_ok k (with_peer p a) fail_z fail_z (get_or_empty p b) s'
           then upd (put p s' b) else None
       | P2p _, _ => None
-      | _, BIns0 => Some st
+      | _, BIns0 None => Some st
       | _, _ => None
       end
   | OEstablished peer a listener _, _ =>
       match listener, ob with
-      | true, BIns0 => Some st
+      | true, BIns0 (Some s') =>
+          (* the address of an inbound connection is not remembered *)
+          if same_store (get_or_empty peer b) s' && store_ok k s' then upd (put peer s' b) else None
       | false, BIns s' =>
           if rescore_ok k (with_peer peer a) (win_z k)
                (fun z => Z.ltb 0 z && (Z.eqb z (sc_established k) ||
